@@ -345,12 +345,18 @@ class _Base(Obligation):
     def _symvals(self, ctx):
         sd.YEAR_RANGE = (self.year - 1, self.year + 1)
         sd.FORK_YEARS = True
+        if getattr(self, 'rows_only', False):
+            # row-selection claims do not depend on the start: day 365 at
+            # 22 h (the steps cross into the next year), no forks on dates
+            return {'sdate': self.year * 1000 + 365, 'stime': 220000}
         _valid_date(ctx, 'd', self.year, self.year)
         j = symx.SymInt(ctx.inputs['d_j'])
         H = ctx.int('t_H', 0, 23)
         return {'sdate': self.year * 1000 + j, 'stime': H * 10000}
 
     def _concvals(self, inputs):
+        if getattr(self, 'rows_only', False):
+            return {'sdate': self.year * 1000 + 365, 'stime': 220000}
         return {'sdate': self.year * 1000 + _g(inputs, 'd_j', 1),
                 'stime': _g(inputs, 't_H') * 10000}
 
